@@ -30,16 +30,28 @@ TITLE = ["", "t", "a b", "<&\">", "\\\"q\\\"", "&quot;", "*e*", "t\nu", " lead",
 TEXT = ["x", "*e*", "`c`", "a ] b".replace(" ] ", " "), "[in]", "![i](j)", "\\]", "a\nb"]
 
 
-def rand_defs(rng):
+VALID_TITLES = ["", "", " 'T'", " \"U\"", "\n  'multi\n  line'", " \"first\\\nsecond\"", " 'a\\\nb\\\nc'", " (p\\\nq)", " \"esc \\\" q\"",
+                "\n\"t\\\n[z]: /phantom\"", " 'back\\\\'"]
+INVALID_TITLES = [" 'x\ny\\'", " \"unclosed\nline", " 'a' b"]
+
+
+def rand_defs(rng, with_flag=False):
+    """a block of reference definitions; `valid` = built only from components that are definitions by the CommonMark
+    grammar (so the block is definition-only by construction, whatever the parser under test says)"""
     out = []
+    valid = True
     for _ in range(rng.randint(1, 4)):
         lab = rng.choice(LABELS)
         dest = rng.choice(["/a", "/b", "<c d>", "http://x.y", "/e?f=g"])
-        title = rng.choice(["", "", " 'T'", " \"U\"", "\n  'multi\n  line'"])
+        if rng.random() < 0.06:
+            title = rng.choice(INVALID_TITLES)
+            valid = False
+        else:
+            title = rng.choice(VALID_TITLES)
         out.append(f"[{lab}]: {dest}{title}\n")
         if rng.random() < 0.2:
             out.append("\n")
-    return "".join(out)
+    return ("".join(out), valid) if with_flag else "".join(out)
 
 
 def rand_use_doc(rng):
@@ -91,7 +103,7 @@ def run(ctx: Ctx) -> None:
     try:
         lines, impl, metas = [], [], []
         for _ in range(n):
-            R = rand_defs(rng)
+            R, r_valid = rand_defs(rng, True)
             D = rand_use_doc(rng)
             hist = rng.choice(["fresh", "seeded", "seeded-twice"])
             # ---- oracle: seeding == prepending
@@ -109,6 +121,12 @@ def run(ctx: Ctx) -> None:
                 b_pre = md.render(pre, {}) if pre else ""
             except Exception:
                 continue
+            r_out = md.render(R, {})
+            if r_out != "":
+                if r_valid:
+                    ctx.fail("definition-rendered", "a block of valid reference definitions produces output / is not consumed as definitions",
+                             {"input": R, "R": R, "history": "fresh", "output": r_out[:200]})
+                continue        # side condition: R is a block of reference definitions only
             nontriv = any(f"[{l}" in D for l in LABELS[:6]) or R.count("]:") > 1
             ctx.count((R, D, hist), nontrivial=nontriv)
             if not b_full.startswith(b_pre) or b_full[len(b_pre):] != a:
@@ -207,14 +225,19 @@ def search(ctx: Ctx):
     c = Ctx(ctx.pid, "quick", ctx.seed + 29)
     md = MarkdownIt()
     for _ in range(5000):
-        R, D = rand_defs(c.rng), rand_use_doc(c.rng)
+        R, r_valid = rand_defs(c.rng, True)
+        D = rand_use_doc(c.rng)
         try:
+            if r_valid and md.render(R, {}) != "":
+                return Finding("definition-rendered", "a block of valid reference definitions produces output", {"input": R, "R": R, "history": "fresh"})
             env = {}
             md.parse(R, env)
             a = md.render(D, env)
             pre = md.render(R + "\n", {})
             b = md.render(R + "\n" + D, {})
         except Exception:
+            continue
+        if pre != "":
             continue
         if b[len(pre):] != a:
             return Finding("seed!=prepend", "render(D, env seeded by R) differs from render(R + blank + D)", {"input": D, "R": R, "history": "seeded"})
@@ -225,6 +248,8 @@ def replay(ctx: Ctx, obj: dict) -> bool:
     from markdown_it import MarkdownIt
 
     md = MarkdownIt()
+    if obj.get("kind") == "definition-rendered":
+        return md.render(obj["R"], {}) == ""
     if obj.get("kind") == "seed!=prepend" and obj.get("history") == "seeded":
         env = {}
         md.parse(obj["R"], env)
